@@ -58,6 +58,8 @@ pub enum Ty {
     Tagged(u64, Box<Ty>),
     /// `dsupport::codecs::tri::Tri` (view U(0) = Keep = nil, U(1) = Clear = null, U(n+2) = Set(n))
     Tri,
+    /// `core::marker::PhantomData<_>`: the empty definite array, never nil (view `Seq([])`)
+    Phantom,
     /// u32 with the custom nil-aware codec (`dsupport::codecs::nilu32`): 0 is nil and is written as null
     NilU32,
 }
